@@ -235,6 +235,13 @@ func checkC03(c *Ctx) {
 			c.c07Read(b)
 		}
 	}, func(o *coreObl) (string, bool) { return "R03.3", o.Rule == "R07.2" })
+	// … and what Get stores is stored: Write performs its store whatever the state of the (caller's) context (C08 R08.3) — otherwise a
+	// Get under a done context turns "stale served" / "built value returned" into a write error
+	c.borrowKinds("C08", func() {
+		for _, b := range backends {
+			c.c08Backend(b)
+		}
+	}, "R03.3", "backends.Write:stores", []string{"R08.3"}, "write-effect")
 	// R03.5: "returned immediately while the build runs in background": that build is not tied to the caller's context, which is
 	// typically cancelled right after Get returned (C06 R06.4)
 	c.borrow("C06", func() { c.c06Detached() }, func(o *coreObl) (string, bool) { return "R03.5", o.Rule == "R06.4" })
